@@ -270,6 +270,9 @@ def writer_cases(draw):
 def execute_writer(ctx, case):
   run = writersim.run_case(case)
   if run.aborted == 'step-limit':
+    if run.recv_exc is not None:
+      ctx.fail('C20:receiving-side-raised', 'the receiving thread died with %r and the writer never stopped' % (run.recv_exc,), case)
+      return
     ctx.count('inconclusive: step limit')
     return
   if run.aborted or run.writer_exc is not None or run.recv_exc is not None:
